@@ -126,6 +126,11 @@ def items(tier):
             # all three given the same way, plus one rotated mix per layout
             out.append(dict(kind="response", id="response-%s-%s-it2" % (lay, specs[si]), layout=lay, spec=[specs[si]] * 3,
                             maxit=2))
+        if li < 2:
+            out.append(dict(kind="response", id="response-%s-scalar-it2-prealloc" % lay, layout=lay, spec=["scalar"] * 3, maxit=2,
+                            prealloc=True))
+            out.append(dict(kind="response", id="response-%s-scalar-it2-callback-reassigns" % lay, layout=lay, spec=["scalar"] * 3,
+                            maxit=2, cb_reassign=True))
         mix = [specs[(li + k) % 3] for k in range(3)]
         out.append(dict(kind="response", id="response-%s-mix-%s-it1" % (lay, "".join(x[0] for x in mix)), layout=lay,
                         spec=mix, maxit=1))
@@ -884,7 +889,13 @@ def sc_response(V, P, cfg):
         flat0 += list(v) if isinstance(v, np.ndarray) else [v]
     coefq = [(V.real("cq%d" % k, default=1.0) if sz == 0 else V.reals("cq%d" % k, sz, default=1.0)) for k, sz in enumerate(sizes)]
     coefl = [(V.real("cl%d" % k, default=1.0) if sz == 0 else V.reals("cl%d" % k, sz, default=1.0)) for k, sz in enumerate(sizes)]
-    sx = [pym.Signal("x%d" % k, (v.copy() if isinstance(v, np.ndarray) else v)) for k, v in enumerate(x0)]
+    if cfg.get("prealloc"):
+        # design signals with a pre-allocated sensitivity buffer (reset() zeroes it in place instead of dropping it)
+        sx = [pym.Signal("x%d" % k, (v.copy() if isinstance(v, np.ndarray) else v),
+                         sensitivity=(np.zeros(np.shape(v), dtype=object if V.symbolic else float) if isinstance(v, np.ndarray) else None))
+              for k, v in enumerate(x0)]
+    else:
+        sx = [pym.Signal("x%d" % k, (v.copy() if isinstance(v, np.ndarray) else v)) for k, v in enumerate(x0)]
     # the constraint does not depend on the second signal (sensitivity None -> zero block)
     lin_idx = [k for k in range(nsig) if not (nsig >= 2 and k == 1)]
     g0, g1 = pym.Signal("g0"), pym.Signal("g1")
@@ -907,9 +918,14 @@ def sc_response(V, P, cfg):
         move_in = np.array(move_in, dtype=object if V.symbolic else float)
         if V.symbolic:
             move_in = move_in.view(SymArray)
-    calls, cb = [], []
+    calls, cb, cbnew = [], [], []
 
     def callback():
+        if cfg.get("cb_reassign") and not cb:
+            # a user callback that installs another design (projection, passive region, restart): a NEW state object
+            new = V.real("xcb", default=0.75) if sizes[0] == 0 else V.reals("xcb", sizes[0], default=0.75)
+            sx[0].state = new
+            cbnew.append(new)
         cb.append([s.state for s in sx])
 
     # tolf: |df|/|f| < tolf can never hold for tolf <= 0; symbolically an object that answers "not smaller" without a
@@ -968,6 +984,8 @@ def sc_response(V, P, cfg):
     prev_new = None
     for k, call in enumerate(calls[:len(cb)]):
         cur = flat0 if k == 0 else prev_new
+        if cbnew and k == 0:
+            cur = (list(cbnew[0]) if isinstance(cbnew[0], np.ndarray) else [cbnew[0]]) + list(cur[lens[0]:])
         cl.arr_eq("it%d:xval==concat(states)" % k, call["xval"], np.array(cur, dtype=object), "concatenate")
         shp = np.shape(call["g"]) == (2,) and np.shape(call["dg"]) == (2, n)
         cl.true("it%d:g.shape" % k, shp, "responses")
